@@ -445,6 +445,27 @@ example :
     (NS.mk "b@h" [⟨1, true, some "a@h", none, false⟩, ⟨3, true, some "a@h", none, false⟩,
                   ⟨2, true, some "a@h", some 5, true⟩]).checkSession "a@h" 0 = .noOther := by decide
 
+/-- (session death: the `NodeServer` forgets it) After the `ActorTerminated` / `ActorFailed` arm of
+`handle_supervisor_evt` removed a session, nothing of it is left: it is not found, not listed by
+`GetSessions`, not a candidate of any election, not elected, and a `check_candidate` for it says
+"another connection continues". -/
+theorem closed_session_leaves_no_trace (st : NS) (id : Nat) :
+    (st.close id).find id = none ∧ id ∉ (st.close id).listed ∧
+    (∀ peer b, id ∉ ((st.close id).candidatesFor peer b).map (·.id)) ∧
+    (st.close id).isElected id = false ∧ (st.close id).checkCandidate id = .otherContinues :=
+  close_no_trace st id
+
+/-- (re-election on reconnection) When every session of `peer` has gone (the link died), a freshly
+opened session — either direction, any nonce incl. the legacy 0 — that registers `peer`'s name and
+authenticates is elected: `commit_authenticated` lets it survive and closes nobody, `GetSessions`
+lists it, `is_elected` holds (it will be reported ready) and its own `CheckSession` answers
+`NoOtherConnection`. Sessions of OTHER peers, authenticated or not, are irrelevant. -/
+theorem reconnection_is_elected (st : NS) (peer : String) (id : Nat) (srv : Bool) (n : Nat)
+    (hnone : ∀ s ∈ st.sessions, s.peerName ≠ some peer) (hfresh : ∀ s ∈ st.sessions, s.id ≠ id) :
+    ∃ st2, (((st.opened id srv).register id peer n).1).commit id = some (st2, true, []) ∧
+      id ∈ st2.listed ∧ st2.isElected id = true ∧ st2.checkSession peer n = .noOther :=
+  reconnect_elected st peer id srv n hnone hfresh
+
 /-- (stability) An elected set re-elects itself: a second election closes nothing more. -/
 theorem elected_set_is_stable (o : Ordering) (cs : List Cand) :
     elect o (pipeline o cs) = elect o cs := by
@@ -545,6 +566,8 @@ end C18
 #print axioms C18.unauthenticated_cannot_influence_ready
 #print axioms C18.unauthenticated_can_only_let_continue
 #print axioms C18.unauthenticated_cannot_veto_check_session
+#print axioms C18.closed_session_leaves_no_trace
+#print axioms C18.reconnection_is_elected
 #print axioms C18.elected_set_is_stable
 #print axioms C18.commit_leaves_elected_set
 #print axioms C18.elected_session_continues
